@@ -124,6 +124,8 @@ type party struct {
 	sent     [][]byte // texts passed to Send while encrypted (or queued)
 	received [][]byte // plaintexts returned by Receive
 	lastReal time.Time // wall clock at the start of the previous call (see world.sync)
+	toldSecure bool          // the last security event said the conversation is private
+	ssids    map[string]bool // every session id this conversation has derived so far (C01 oracle)
 }
 
 func (p *party) HandleMessageEvent(event otr3.MessageEvent, message []byte, err error, trace ...interface{}) {
@@ -138,6 +140,8 @@ func (p *party) HandleMessageEvent(event otr3.MessageEvent, message []byte, err 
 }
 func (p *party) HandleSecurityEvent(event otr3.SecurityEvent) {
 	p.events = append(p.events, fmt.Sprintf("sec:%d", int(event)))
+	// what the user has been told: secure after GoneSecure / StillSecure, until GoneInsecure
+	p.toldSecure = event != otr3.GoneInsecure
 }
 func (p *party) HandleSMPEvent(event otr3.SMPEvent, pct int, question string) {
 	s := fmt.Sprintf("smp:%d:%d", int(event), pct)
@@ -331,6 +335,16 @@ func (w *world) recv(p *party, m []byte) (plain []byte, toSend []otr3.ValidMessa
 	}
 	w.g.out.emit(fmt.Sprintf("recv %s %s%s", p.id, hx(m), p.tail()), res)
 	w.g.dist["op:recv"]++
+	if !panicked {
+		sn := otr3.VerifSnapshot(p.c)
+		if p.ssids == nil {
+			p.ssids = map[string]bool{}
+		}
+		p.ssids[string(sn.SSID)] = true
+		if sn.AkeSSID != nil {
+			p.ssids[string(sn.AkeSSID)] = true
+		}
+	}
 	if plain != nil {
 		p.received = append(p.received, plain)
 	}
